@@ -458,7 +458,19 @@ def stream_compounds(run: Run, c: Ctx, batch: Batch, n):
             batch.ask("sld n %s e %s %s" % (f2h(dens), f2h(e), toks), lambda rep, res=res, sc=sc: model_sld(rep, res, (sc[0] * 2, sc[1] * 2), "xray_sld(natural_density)"))
         elif call == "sld_nodensity":
             d0 = f.density
-            res = py(lambda: xsf.xray_sld(f, energy=e))
+            # as a string where the string names the same formula: first with an explicit density, then
+            # without – the second call must use the formula's own density again (nothing may stick)
+            target = f
+            try:
+                text = str(f)
+                g = formula(text)
+                if g == f and g.density == f.density and idx % 2 == 0:
+                    target = text
+                    py(lambda: xsf.xray_sld(text, density=dens * 1.37, energy=e))
+                    run.dist["compound:string-after-density"] = run.dist.get("compound:string-after-density", 0) + 1
+            except Exception:  # noqa
+                target = f
+            res = py(lambda: xsf.xray_sld(target, energy=e))
             if res[0] == "ok" and d0 is not None:
                 check_sld_against_oracle(res[1], e, d0, "xray_sld with the formula's own density is not r_e*N_A*density/mass*sum(n*f)", clause="sld")
             o0 = expect_sld(e, d0) if d0 is not None else None
